@@ -49,27 +49,31 @@ Muts(a) == IF New(a) \/ ~Changed(a) THEN {} ELSE Pending(a)
 Reaches(a) == IF New(a) THEN TRUE
               ELSE IF ~Changed(a) THEN TRUE
               ELSE Muts(a) = (stored[a] + 1)..code[a]
-Run ==
-    /\ Installed # {}
-    /\ LET bad == { a \in Installed : ~Reaches(a) }
-           required == \E a \in Installed : New(a) \/ Muts(a) # {}
+(* S: the apps queued for this run (all installed apps for the command; one app for an
+   API run limited to it with Evolver.queue_evolve_app) *)
+RunOn(S, opname) ==
+    /\ S # {} /\ S \subseteq Installed
+    /\ LET bad == { a \in S : ~Reaches(a) }
+           required == \E a \in S : New(a) \/ Muts(a) # {}
        IN IF bad # {}
-          THEN /\ Log([op |-> "run", outcome |-> "rejected", executed |-> [a \in Apps |-> {}]])
+          THEN /\ Log([op |-> opname, apps |-> S, outcome |-> "rejected", executed |-> [a \in Apps |-> {}]])
                /\ UNCHANGED <<code, stored, tab, rec, execs>>
           ELSE IF ~required
-          THEN /\ Log([op |-> "run", outcome |-> "nothing", executed |-> [a \in Apps |-> {}]])
+          THEN /\ Log([op |-> opname, apps |-> S, outcome |-> "nothing", executed |-> [a \in Apps |-> {}]])
                /\ UNCHANGED <<code, stored, tab, rec, execs>>
           ELSE /\ execs' = [a \in Apps |-> [i \in Labels |->
-                               IF a \in Installed /\ i \in Muts(a) THEN execs[a][i] + 1 ELSE execs[a][i]]]
-               \* every task records its unapplied labels, with or without SQL; a new app
-               \* records its whole sequence
+                               IF a \in S /\ i \in Muts(a) THEN execs[a][i] + 1 ELSE execs[a][i]]]
+               \* every queued task records its unapplied labels, with or without SQL; a new app
+               \* records its whole sequence; apps that are not queued are left alone
                /\ rec' = [a \in Apps |-> [i \in Labels |->
-                               IF a \in Installed /\ i \in Pending(a) THEN rec[a][i] + 1 ELSE rec[a][i]]]
-               /\ stored' = [a \in Apps |-> IF a \in Installed THEN code[a] ELSE stored[a]]
-               /\ tab' = [a \in Apps |-> IF a \in Installed THEN code[a] ELSE tab[a]]
-               /\ Log([op |-> "run", outcome |-> "executed",
-                       executed |-> [a \in Apps |-> IF a \in Installed THEN Muts(a) ELSE {}]])
+                               IF a \in S /\ i \in Pending(a) THEN rec[a][i] + 1 ELSE rec[a][i]]]
+               /\ stored' = [a \in Apps |-> IF a \in S THEN code[a] ELSE stored[a]]
+               /\ tab' = [a \in Apps |-> IF a \in S THEN code[a] ELSE tab[a]]
+               /\ Log([op |-> opname, apps |-> S, outcome |-> "executed",
+                       executed |-> [a \in Apps |-> IF a \in S THEN Muts(a) ELSE {}]])
                /\ UNCHANGED code
+Run == RunOn(Installed, "run")
+RunOnly(a) == a \in Installed /\ Cardinality(Installed) > 1 /\ RunOn({a}, "runonly")
 
 (* mark-evolution-applied --app-label a LABEL: refuses labels that are already applied *)
 Mark(a, i) ==
@@ -106,6 +110,7 @@ Wipe(a, i, withLabel) ==
 Next == /\ Len(hist) < MaxOps
         /\ \/ \E a \in Apps, v \in 0..MaxVer : Deploy(a, v)
            \/ Run
+           \/ \E a \in Apps : RunOnly(a)
            \/ \E a \in Apps, i \in Labels : Mark(a, i)
            \/ \E a \in Apps : MarkAll(a)
            \/ \E a \in Apps, i \in Labels : Wipe(a, i, TRUE)
@@ -121,7 +126,12 @@ RecordedNeverExecutedAgain ==
     [][ \A a \in Apps, i \in Labels : (rec[a][i] > 0 /\ execs'[a][i] > execs[a][i]) => FALSE ]_vars
 (* only a run that completes records; a rejected or idle run changes nothing *)
 OnlyCompletedRunsRecord ==
-    [][ (last'.op = "run" /\ last'.outcome # "executed") => UNCHANGED <<rec, execs, stored, tab>> ]_vars
+    [][ (last'.op \in {"run", "runonly"} /\ last'.outcome # "executed")
+            => UNCHANGED <<rec, execs, stored, tab>> ]_vars
+(* a run limited to one app leaves the other app's ledger and signature alone *)
+LimitedRunTouchesOnlyItsApp ==
+    [][ last'.op = "runonly" => \A a \in Apps \ last'.apps :
+            rec'[a] = rec[a] /\ execs'[a] = execs[a] /\ stored'[a] = stored[a] /\ tab'[a] = tab[a] ]_vars
 (* a fresh app's whole sequence is recorded without any of it being executed *)
 FreshRecordsWithoutExecuting ==
     [][ \A a \in Apps : (stored[a] = -1 /\ stored'[a] >= 0) =>
